@@ -24,6 +24,13 @@ Conforms(ev) ==
   /\ \A x \in 1..Len(ev.splits) :
        /\ Total(ev.splits[x].a) /\ Total(ev.splits[x].b)
        /\ L4(ev.items, ev.splits[x].a, ev.splits[x].b)
+  \* the iterator is one sequence, however it is walked: nth(k), skip(k), count() and last() agree with next()
+  /\ ev.count = Len(ev.items)
+  /\ ev.last = (IF ev.items = <<>> THEN <<>> ELSE <<ev.items[Len(ev.items)]>>)
+  /\ \A x \in 1..Len(ev.nth) :
+       LET k == ev.nth[x].k IN
+       /\ ev.nth[x].got = (IF k < Len(ev.items) THEN <<ev.items[k + 1]>> ELSE <<>>)
+       /\ ev.nth[x].after_skip = (IF k < Len(ev.items) THEN Len(ev.items) - k ELSE 0)
 
 VARIABLE cursor
 Init == cursor \in 1..(IF N < K THEN N ELSE K)
